@@ -23,14 +23,14 @@ def defines_row(rng, style):
 def quick_configs(rng):
     cs = [
         G.Config(3, L=4, cap=3, head=True, payload="d12", ctx="ref"),
-        G.Config(2, L=2, cap=1, head=False, manual=True, payload="none", ctx="value"),
+        G.Config(2, L=2, cap=1, head=False, manual=True, payload="none", ctx="value", history=False),   # serialization and plans without history
         G.Config(4, L=3, cap=2, head=True, manual=True, payload="u8", ctx="ptr"),
         G.Config(1, L=1, cap=1, head=True, payload="a32", ctx="ref"),
         G.Config(5, L=4, cap=5, head=False, payload="none", verbose=True, ctx="ref",
                  defines=["1" * 14, "0" * 14, "10100100100111", "01011011011000", "1" * 14, "0" * 14]),
         G.Config(3, L=3, cap=4, head=True, manual=True, payload="d12", ctx="ref", inj=[1, 0, 2, 1],
                  defines=["11110111101111", "1" * 14, "1" * 14, "1" * 14]),
-        G.Config(2, L=2, cap=6, head=True, manual=True, payload="none", ctx="ref"),   # task capacity above the state count; payload-free plan with a visible root
+        G.Config(2, L=2, cap=6, head=True, manual=True, payload="none", ctx="ref", serial=False),   # task capacity above the state count; payload-free plan with a visible root; no serialization
         G.Config(7, L=8, cap=2, head=True, payload="u8", ctx="value",
                  defines=[defines_row(random.Random(7 + k), "mix") for k in range(7)] + ["1" * 14]),
     ]
@@ -48,6 +48,9 @@ def thorough_configs(rng):
                            defines=[defines_row(r, r.choice(["all", "all", "mix"])) for _ in range(n)] + ["1" * 14]))
     # feature subsets (history / serialization / plans / logging off)
     cs.append(G.Config(3, L=4, cap=3, head=True, payload="u8", plans=False))
+    cs.append(G.Config(3, L=3, cap=3, head=False, payload="u8", history=False))                  # serialization + plans, no history
+    cs.append(G.Config(4, L=2, cap=4, head=True, manual=True, payload="none", serial=False))     # plans + history, no serialization
+    cs.append(G.Config(2, L=2, cap=2, head=True, manual=True, payload="d12", plans=False, history=False))
     cs.append(G.Config(3, L=4, cap=3, head=True, payload="none", history=False, serial=False))
     cs.append(G.Config(4, L=2, cap=2, head=False, manual=True, payload="d12", log=False))
     cs.append(G.Config(2, L=4, cap=255, head=True, payload="none"))
